@@ -30,6 +30,19 @@ def ruleLoad (tbl : Table) (e : EngineInfo) (p : ParsedRule) (s : RuleState) : R
     | .error k => (⟨some a, []⟩, some k)
     | .ok cs => (⟨some a, cs⟩, none)
 
+/-- `Rule.unload()`: `antecedent.unload()` (`expression = None`) and `consequent.unload()` (`conclusions.clear()`) -/
+def RuleState.unloaded : RuleState := ⟨none, []⟩
+
+/-- `RuleBlock.load_rules(engine)` on rules with the given texts: every rule is unloaded and then loaded inside a
+    `try`, whatever happened to the rules before it; the result is the state every rule ends in and the failures in
+    order (the rule and the exception class of its load – the code collects one message per failing rule) -/
+def loadRules (tbl : Table) (e : EngineInfo) (ps : List ParsedRule) : List RuleState × List (ParsedRule × ErrKind) :=
+  (ps.map (fun p => (ruleLoad tbl e p .unloaded).1),
+   ps.filterMap (fun p => (ruleLoad tbl e p .unloaded).2.map (fun k => (p, k))))
+
+/-- `load_rules` raises `RuntimeError` – after the last rule – exactly when some load failed -/
+def loadRulesRaises (tbl : Table) (e : EngineInfo) (ps : List ParsedRule) : Bool := !(loadRules tbl e ps).2.isEmpty
+
 /-- stage at which `Rule.create(text, engine)` stops -/
 inductive Stage where
   | parse | ante | cons
